@@ -227,7 +227,7 @@ TOKEN_SHAPES = [
     ("bool", "bool {t}(bool flag)"),
     ("array", "void {t}(const double *arr +rank(1), int n +implied(size(arr)))"),
 ]
-LUA_OK = ("plain", "scalar", "bool", "default")
+LUA_OK = ("plain", "scalar", "bool", "default")  # (return_this and overloads are not asserted for Lua)
 
 
 def token_spec(rng, idx):
@@ -280,17 +280,23 @@ def token_spec(rng, idx):
 
     ncls = [0]
 
-    def add_class(depth):
+    def add_class(depth, template=False):
         """A class whose name is a token; constructor and destructor inherit the class' flags."""
         ind = "  " * (depth - 1)
         name = "Zq%dcl%s" % (idx, "abcd"[ncls[0] % 4])
         ncls[0] += 1
         entries.append({"kind": "cont", "what": "class", "indent": ind, "name": name, "over": cont_over(),
-                        "depth": depth})
+                        "depth": depth, "template": template})
         entries.append({"kind": "member", "indent": ind + "  ", "decl": "%s()" % name})
         entries.append({"kind": "member", "indent": ind + "  ", "decl": "~%s()" % name})
         for _ in range(rng.randint(1, 3)):
             add_fn(ind + "  ", allow_overload=False)
+        if not template and rng.random() < 0.4:
+            # a method that returns "this" (documented field return_this: True)
+            tok = "zq%dfn%dx" % (idx, counter[0])
+            counter[0] += 1
+            entries.append({"kind": "fn", "indent": ind + "  ", "decl": "%s * %s()" % (name, tok), "tok": tok,
+                            "shape": "return_this", "over": {}, "extra": ["return_this: True"]})
 
     if rng.random() < 0.5:
         # a struct is a declaration too (bind(C) derived type in Fortran, struct in the C header)
@@ -303,6 +309,8 @@ def token_spec(rng, idx):
         add_fn("")
     if rng.random() < 0.6:
         add_class(1)
+    if rng.random() < 0.3:
+        add_class(1, template=True)
     if rng.random() < 0.6:
         entries.append({"kind": "cont", "what": "namespace", "indent": "", "name": "zq%dnsa" % idx,
                         "over": cont_over(), "depth": 1})
@@ -327,6 +335,7 @@ def render_token_library(spec, wp, wl):
         lines.append("  wrap_%s: %s" % (lang, lf[lang]))
     lines.append("declarations:")
     tokens = {}
+    on_langs = set()  # languages that some declaration (container or function) has switched on
     stack = []  # enclosing containers: (depth, name, effective defaults)
     for e in spec["entries"]:
         if e["kind"] == "cont":
@@ -334,7 +343,13 @@ def render_token_library(spec, wp, wl):
             while stack and stack[-1][0] >= d:
                 stack.pop()
             base = dict(stack[-1][2]) if stack else dict(lf)
-            lines.append("%s- decl: %s %s" % (e["indent"], e["what"], e["name"]))
+            if e.get("template"):
+                lines.append("%s- decl: template<typename T> class %s" % (e["indent"], e["name"]))
+                lines.append("%s  cxx_template:" % e["indent"])
+                lines.append("%s  - instantiation: <int>" % e["indent"])
+                lines.append("%s  - instantiation: <double>" % e["indent"])
+            else:
+                lines.append("%s- decl: %s %s" % (e["indent"], e["what"], e["name"]))
             if e["over"]:
                 lines.append("%s  options:" % e["indent"])
                 for k in LANGS:
@@ -343,8 +358,10 @@ def render_token_library(spec, wp, wl):
                         base[k] = e["over"][k]
             lines.append("%s  declarations:" % e["indent"])
             stack.append((d, e["name"], base))
+            on_langs.update(l for l in LANGS if base[l])
             tokens[e["name"]] = {"c": bool(base["c"]), "fortran": bool(base["fortran"]), "python": bool(base["python"]),
-                                 "lua": False, "shape": e["what"], "lua_unsupported": True, "members": 0}
+                                 "lua": False, "shape": "class-template" if e.get("template") else e["what"],
+                                 "lua_unsupported": True, "members": 0}
             continue
         if e["kind"] == "struct":
             lines.append("- decl: struct %s {" % e["name"])
@@ -360,6 +377,7 @@ def render_token_library(spec, wp, wl):
                 return None
             tokens[e["name"]] = {"c": bool(eff["c"]), "fortran": bool(eff["fortran"]), "python": True, "lua": True,
                                  "shape": "struct", "lua_unsupported": True, "members": 1}
+            on_langs.update(l for l in LANGS if eff[l])
             continue
         ind = e["indent"]
         depth = len(ind) // 2
@@ -371,6 +389,7 @@ def render_token_library(spec, wp, wl):
             eff = dict(stack[-1][2]) if stack else dict(lf)
             if eff["fortran"] and not eff["c"]:
                 return None
+            on_langs.update(l for l in LANGS if eff[l])
             for (_d, cname, _b) in stack:
                 t = tokens[cname]
                 t["members"] += 1
@@ -378,6 +397,8 @@ def render_token_library(spec, wp, wl):
                     t[l] = t[l] or bool(eff[l])
             continue
         lines.append("%s- decl: %s" % (ind, e["decl"]))
+        for x in e.get("extra", []):
+            lines.append("%s  %s" % (ind, x))
         in_ns = [(x[0], x[1]) for x in stack]
         eff = dict(stack[-1][2]) if stack else dict(lf)
         if e["over"]:
@@ -394,6 +415,7 @@ def render_token_library(spec, wp, wl):
             cur["shape"] = e["shape"]
             cur["lua_unsupported"] = False
             tokens[e["tok"]] = cur
+        on_langs.update(l for l in LANGS if eff[l])
         for l in LANGS:
             cur[l] = cur[l] or bool(eff[l])  # a name appears if any of its overloads is wrapped
         for (_d, nsname) in in_ns:
@@ -408,7 +430,9 @@ def render_token_library(spec, wp, wl):
             cur["shape"] = "overload"
     for name in [n for n, t in tokens.items() if t["shape"] in ("namespace", "class") and not t["members"]]:
         del tokens[name]
-    return "\n".join(lines) + "\n", lf, tokens
+    for name in [n for n, t in tokens.items() if t["shape"] == "class-template"]:
+        del tokens[name]  # instantiations carry derived names; only the methods are asserted
+    return "\n".join(lines) + "\n", lf, tokens, sorted(on_langs)
 
 
 def token_jobs(seeds, n):
@@ -429,7 +453,7 @@ def token_jobs(seeds, n):
             continue
         dargv, mk, pat = pool.dir_pattern(rng)
         fam = "c15tok/%d-%s" % (made, spec["lib"])
-        for (wp, wl), (text, lf, tokens) in sorted(rendered.items()):
+        for (wp, wl), (text, lf, tokens, on_langs) in sorted(rendered.items()):
             toks = {}
             for t, eff in tokens.items():
                 e = {l: bool(eff[l]) for l in LANGS}
@@ -459,7 +483,7 @@ def token_jobs(seeds, n):
             fname = IN_DIR + "/%s.yaml" % spec["lib"]
             argv = ["--path", IN_DIR] + dargv + ["--option", "debug_testsuite=true", "--nowrite-version",
                                                  "--cfiles", WORK + "/c.lst", "--ffiles", WORK + "/f.lst", fname]
-            nested_on = sorted(l for l in LANGS if any(eff[l] for eff in tokens.values()))
+            nested_on = list(on_langs)
             jid = "%s/%d%d" % (fam, int(wp), int(wl))
             meta = {"source": "c15tok", "cwd_free": False, "yaml": spec["lib"], "family": fam,
                     "c15": {"flags": lf, "nested_on": nested_on, "tokens": toks, "dirpat": pat,
